@@ -159,7 +159,7 @@ class Check:
         nviol = 0
         seen_known = {}
         lines = []
-        for key, vs in sorted(groups.items()):
+        for key, vs in sorted(groups.items(), key=lambda kv: (not any(v['failing_input'] for v in kv[1]), kv[0])):
             vs.sort(key=lambda v: (not v['failing_input'], v['size']))
             v = vs[0]
             kf = None
